@@ -32,6 +32,7 @@ func (f *File) Sync() error {
 	if err := f.File.Sync(); err != nil {
 		return err
 	}
+	vhook("fs.fsync.file", f.File.Name())
 	new := atomic.SwapUint32(&f.new, 1)
 	if new == 0 {
 		return syncDir(f.dir)
